@@ -117,3 +117,32 @@ def judge_bed12(line, exp, only=None):
         if not ok:
             return "field %s differs" % FIELD_NAMES[i], {"field": i + 1, "got": g, "expected": want}
     return None, None
+
+
+# --- record naming of a FASTA reader opened with non-default options ------------------------------------------------
+# headers are written as  >gi|<number>|<name>[ <description>]
+NAMING_MODES = ["keyfn_last", "split_first", "long", "long_keyfn", "short"]
+
+
+def naming_keys(mode, records):
+    """records: [[name field, description, ...]] in file order.  Returns {key: record index} = the names under which a
+    reader opened in `mode` offers the records (keyfn_last: last |-separated piece of the name field; split_first: every
+    |-separated piece, the first record wins a shared piece; long: the whole header line; long_keyfn: whole header
+    line mapped to the last |-piece of its first word; short: the name field)."""
+    out = {}
+    for i, rec in enumerate(records):
+        name, desc = rec[0], rec[1]
+        header = name + ((" " + desc) if desc else "")
+        if mode in ("keyfn_last", "long_keyfn"):
+            keys = [name.split("|")[-1]]
+        elif mode == "split_first":
+            keys = name.split("|")
+        elif mode == "long":
+            keys = [header]
+        elif mode == "short":
+            keys = [name]
+        else:
+            raise ValueError(mode)
+        for k in keys:
+            out.setdefault(k, i)
+    return out
